@@ -175,11 +175,11 @@ int define_external_variables(
     {
       if (rules != NULL)
         result = yr_rules_define_integer_variable(
-            rules, identifier, atoi(value));
+            rules, identifier, strtoll(value, NULL, 10));
 
       if (compiler != NULL)
         result = yr_compiler_define_integer_variable(
-            compiler, identifier, atoi(value));
+            compiler, identifier, strtoll(value, NULL, 10));
     }
     else if (strcmp(value, "true") == 0 || strcmp(value, "false") == 0)
     {
